@@ -87,7 +87,7 @@ class Ctx:
 
     def note(self, s):
         self.notes.append(s)
-        print("[%s] %s" % (self.prop, s), flush=True)
+        print("[%s] %s  (+%.0fs)" % (self.prop, s, time.time() - self.t0), flush=True)
 
     @property
     def quick(self):
